@@ -113,6 +113,13 @@ def node_shape(db, ctx):
                     ok_wid = wid.get("k") == "Call" and path_ends(wid.get("callee"), "WordId::oov")
                     wo = origins(db, f, wid["args"][0], depth=0) if ok_wid else set()
                     ok_pos = any(o[0] == "field" and "pos" in o[2] for o in wo)
+                    # the left / right connection ids of the candidate are the homonymous configured ones (not exchanged)
+                    lo = {o[2] for o in origins(db, f, a[2], depth=2) if o[0] == "field"}
+                    ro = {o[2] for o in origins(db, f, a[3], depth=2) if o[0] == "field"}
+                    ok_ids = any("left" in x for x in lo) and not any("right" in x for x in lo) and any("right" in x for x in ro) and not any("left" in x for x in ro)
+                    ctx.ob("%s|Node::new|id-pairing" % f.short(), ok_ids,
+                           "%s: Node::new(left id from field(s) %s, right id from field(s) %s) — the candidate's left id must come from the configured left id and "
+                           "its right id from the configured right id" % (f.short(), sorted(lo), sorted(ro)), fn=f, site=c.get("sp"))
                     n_nodes += 1
                     ctx.ob("%s|Node::new" % f.short(), ok_begin and ok_wid and ok_pos,
                            "%s: Node::new(begin=`%s` traced to parameters %s, .., word id `%s`): begin is the given offset=%s, OOV id with configured POS=%s"
@@ -355,3 +362,73 @@ def oov_units(db, ctx):
             n += 1
             ctx.ob("%s|consistent" % f.short(), True, "%s: %d seeded use-sites reached with a known space, all consistent" % (f.short(), reached), fn=f)
     ctx.floor(3)
+
+
+@rule("C13.bow-table", "whether a character may begin a word (InputBuffer::build): false after a NOOOVBOW2 character, false for NOOOVBOW2 / NOOOVBOW "
+                       "characters, for ALPHA / GREEK / CYRILLIC characters false exactly when the previous character shares a class with it, true "
+                       "otherwise — as a truth table over the five tests, whatever the control flow that implements it")
+def bow_table(db, ctx):
+    from ..flow import select
+    from ..guards import eval3
+    from ..db import deref_all
+    from ..wimodel import flag_names
+    f = db.view(db.one("build", "InputBuffer"))
+    stores = [n for n, _ in walk(f.hir) if n.get("k") == "Assign" and peel(n["l"]).get("k") == "Index" and peel(peel(n["l"])["e"]).get("name") == "mod_bow"]
+    if len(stores) != 1:
+        raise AnchorMissing("InputBuffer::build: store into mod_bow")
+    val = stores[0]["r"]
+
+    def strip(e):
+        e = peel(e)
+        while isinstance(e, dict) and e.get("k") == "Unary" and e.get("op") == "Deref":
+            e = peel(e["e"])
+        d = deref_all(e)
+        while isinstance(d, dict) and d.get("k") in ("AddrOf",):
+            d = deref_all(d["e"])
+        return d
+
+    def mk_ev(blocked, b2, b1, ns, same):
+        def ev(atom):
+            a = strip(atom)
+            if not isinstance(a, dict):
+                return None
+            if a.get("k") == "Path" and a.get("res") == "local" and (a.get("ty") or "").endswith("bool") and "mut_init" in a:
+                return not blocked            # the carried flag: true = this character is not blocked by the previous one
+            if a.get("k") == "MethodCall" and a.get("method") == "intersects" and a["args"]:
+                recv, arg = strip(a["recv"]), strip(a["args"][0])
+                is_cat = lambda x: x.get("k") == "MethodCall" and x.get("method") == "get_category_types" or (x.get("k") == "Path" and x.get("name") == "cat")
+                is_prev = lambda x: x.get("k") == "Path" and x.get("res") == "local" and "mut_init" in x and "CategoryType" in (x.get("ty") or "")
+                if is_prev(arg) and not is_prev(recv) and (is_cat(recv) or True) and not _flags(recv):
+                    return same
+                if is_prev(recv) and not _flags(arg):
+                    return same
+                fl = _flags(arg) if not is_prev(arg) else set()
+                if fl == {"NOOOVBOW2"}:
+                    return b2
+                if fl == {"NOOOVBOW"}:
+                    return b1
+                if fl == {"ALPHA", "GREEK", "CYRILLIC"} and not _flags(recv):
+                    return ns
+                return None
+            return None
+        return ev
+
+    def _flags(x):
+        fl = flag_names(x)
+        return fl if fl and not any(s.startswith("?") for s in fl) else set()
+    bad = []
+    n = 0
+    for blocked in (True, False):
+        for b2 in (True, False):
+            for b1 in (True, False):
+                for ns in (True, False):
+                    for same in (True, False):
+                        ev = mk_ev(blocked, b2, b1, ns, same)
+                        got = eval3(select(db, f, val, ev), ev)
+                        want = False if (blocked or b2 or b1) else ((not same) if ns else True)
+                        n += 1
+                        if got is not want:
+                            bad.append(((blocked, b2, b1, ns, same), got, want))
+    ctx.ob("can_bow|truth-table", not bad,
+           "value stored into mod_bow over (blocked-by-previous, NOOOVBOW2, NOOOVBOW, alpha/greek/cyrillic, shares-a-class-with-previous): %d of %d rows "
+           "as specified%s" % (n - len(bad), n, "" if not bad else "; first differing row %s gives %s, specified %s" % bad[0]), fn=f, site=stores[0].get("sp"))
